@@ -67,8 +67,8 @@ CHECKS.update({
         design="3/C07", note=TB + "Nondeterminism from uninitialised reads inside numeric cores is not expressible in the model. Known shared mutable globals (StoGO counters) are a C16 finding.",
         technique="Lean 4 proof over arbitrary algorithm machines + generated global-symbol table (decide) + pair runs"),
     "C08": dict(category="proof",
-        text="Lean 4 proof (max_is_min_neg): for every algorithm machine, user and layer stack, maximizing f with stopval s and minimizing -f with stopval -s hand the algorithm the same problem and indistinguishable callbacks (simulation lemma), hence equal evaluation points, x and code, opt_f the exact negation, and the object still reports maximize / stopval s. Tie: both runs of every pair are replayed through the model. Monitor: bitwise pair comparison for all algorithms.",
-        design="3/C08", note=TB, technique="Lean 4 proof (bisimulation of callback environments for arbitrary algorithms) + pair runs"),
+        text="Lean 4 proof (max_is_min_neg): for every algorithm machine, user and layer stack, maximizing f with stopval s and minimizing -f with stopval -s hand the algorithm the same problem and indistinguishable callbacks (simulation lemma), hence equal evaluation points, x and code, opt_f the exact negation, and the object still reports maximize / stopval s. Tie: both runs of every pair are replayed through the model. Monitor: bitwise pair comparison for all algorithms. Preconditioners (pre_max, CCSAQ only) are outside the wrapper model: Props/C08.lean states what pre_max must deliver (premax_is_pre_of_neg, for every preconditioner, point and vector), hook event 42 ties it to optimize.c on every preconditioner call of the pair runs.",
+        design="3/C08, 8.2", note=TB, technique="Lean 4 proof (bisimulation of callback environments for arbitrary algorithms) + pair runs"),
     "C11": dict(category="proof",
         text="Lean 4 proof (elim_equiv): for every algorithm machine of the elimination list (regenerated from elimdim_wrapcheck), every dimension and every non-empty subset of fixed coordinates, the algorithm receives the same problem as for the hand-reduced object (lb, ub, xtol_abs, x_weights, dx shrunk) and indistinguishable callbacks; user callbacks see fixed coordinates bitwise on the bound; x = expand(x_reduced); equal opt_f, code, count. Tie: inner problem dump at nlopt_optimize_ entry vs the model (S-wrap). Monitor: pair runs full vs hand-reduced for every subset (n <= 3) and sampled subsets up to n = 8.",
         design="3/C11", note=TB + "Hypothesis of the theorem: the algorithm never requests gradients of vector constraints (true for the elimination list). Fixed by commit: x_weights were not shrunk.",
